@@ -127,13 +127,19 @@ class UMNDirHandler(DirHandler):
             if not linkentry.getneedsmerge():
                 self.fileentries.append(linkentry)
                 continue
+            hides = linkentry.gettype() == "X" or linkentry.gettype() == "-"
             if linkentry.selector in fileentriesdict:
-                if linkentry.gettype() == "X":
-                    # It's special code to hide something.
-                    self.fileentries.remove(fileentriesdict[linkentry.selector])
+                if hides:
+                    # It's special code to hide something (which an earlier
+                    # block may have hidden already).
+                    target = fileentriesdict[linkentry.selector]
+                    if target in self.fileentries:
+                        self.fileentries.remove(target)
                 else:
                     self.mergeentries(fileentriesdict[linkentry.selector], linkentry)
-            else:
+            elif not hides:
+                # A block that hides a file which is not there (any more, or
+                # because its .cap file hid it) adds nothing.
                 self.fileentries.append(linkentry)
 
     def mergeentries(self, old: GopherEntry, new: GopherEntry) -> None:
